@@ -26,6 +26,7 @@ EXPLANATION = (
     " (M5) no loop iterates the live compound list while its body reaches a list mutator; (M6) in MergeRule.apply the compound that is updated, that inherits the other compound's rules and that is returned is <b>.compound of the boundary b removed by update(), as b is bound at that point (a look-up taken before the boundary swap is stale); (M7) <compound>.mol is assigned only by methods of Compound and of the rule/action classes, never by the orchestration in merge.py."
     ' (M9) the classification loop of merge() hands every compound to a collector on every path; (M10) explicit hydrogen counts are changed only by the hydrogen-fixing helper of MergeRule.apply.'
     ' (M11) lists joined by position derive from the same selection (shared with C06-B3); (M12) no state shared between calls on the merge path, memo tables keyed by a projection of a parameter included (shared with C06-B4).'
+    ' (M13) nobody edits the container that is a parameter default of the merge stage (shared with C06-B13). (M14) Compound.concat joins the SMILES of every part with multiplicity, no set.'
 )
 ASSUMPTIONS = ["RDKit CombineMols/AddBond conserve atoms (library)"]
 
